@@ -30,3 +30,22 @@ pub impl NamedU8Again of Named<u8> {
         'u8 again'
     }
 }
+
+// A method that also exists in a corelib trait that is not in the prelude: the "consider importing"
+// suggestion lists candidates from two crates.
+pub trait MySqrt<T> {
+    fn sqrt(self: T) -> T;
+}
+pub impl MySqrtU32 of MySqrt<u32> {
+    fn sqrt(self: u32) -> u32 {
+        self / 2
+    }
+}
+pub trait MyPow<T> {
+    fn pow(self: T, exp: u32) -> T;
+}
+pub impl MyPowU64 of MyPow<u64> {
+    fn pow(self: u64, exp: u32) -> u64 {
+        self + exp.into()
+    }
+}
